@@ -206,12 +206,19 @@ def main(argv=None):
         print(json.dumps(res, indent=1, default=jdefault))
         return 0 if res.get("ok") else 1
 
+    crashed = False
     try:
         mod.run(ctx)
     except Exception:
         traceback.print_exc()
-        print("CHECK-ERROR property=%s (harness failure, not a verdict)" % args.prop)
-        return 2
+        crashed = True
+        known_ = load_findings(args.prop)
+        if not any(not (v["finding"] and v["finding"] in known_) for v in ctx.violations):
+            print("CHECK-ERROR property=%s (harness failure, not a verdict)" % args.prop)
+            return 2
+        # a later layer of the harness failed, but earlier layers already found violations: those stand and are reported
+        print("CHECK-ERROR property=%s (a later layer failed; the violations found before it are reported)" % args.prop)
+        ctx.exhaustive = False
 
     known = load_findings(args.prop)
     n_viol = n_known = 0
